@@ -12,6 +12,9 @@ Line-protocol driver for the `dsl` cluster (C15).
                            →  fired <name>,<name>,…  (sorted, `-` if none)   or   err ValueError
         <traits>: comma-separated  name:kind:v_sync:v_m  (kind c = class trait, a = added later — the same
         to the model); v_* = the value of the metadata `sync` / `m`:  T 1 x (truthy)  F 0 E (falsy)  N A (None / absent)
+  l  <uw> <item> <item> …  the LIST form observe(handler, [item, …]) / @observe([…]) / Property(observe=[…])
+                           →  ok <paths> / err ValueError ;  <item> = `=<text>` (a text) or `~<text>` (the
+                           ObserverExpression parse(text); `bad-case` if that text does not parse)
 A path is its steps joined by `>`; a step is  T:<name>:<notify>:<optional> (NamedTraitObserver),
 L/D/S:<notify>:<optional> (List/Dict/SetItemObserver), M:<name>:<notify> (metadata filter),
 A:<notify> (anytrait filter).  Paths are sorted.
@@ -119,12 +122,28 @@ def handleMatch (uw : Char → Bool) (s : List Char) (ts : List TraitInfo) : Str
     let ns := ((leafTargets f ts).map esc).eraseDups.mergeSort (fun a b => decide (a ≤ b))
     "fired " ++ (if ns.isEmpty then "-" else ",".intercalate ns)
 
+def item? (uw : Char → Bool) (s : String) : Option Item :=
+  match s.toList with
+  | '=' :: _ => (unesc s).map .text
+  | '~' :: r =>
+    match unescF r.length r with
+    | some t => (parseChars uw t).map (fun c => .expr (toExpr c true))
+    | none => none
+  | _ => none
+
 def handle (line : String) : String :=
   match words line with
   | ["c", t, u] =>
     match unesc t, parseUw u with
     | some s, some uw => showCompile (compileChars uw s)
     | _, _ => "bad-case"
+  | "l" :: u :: items =>
+    match parseUw u with
+    | some uw =>
+      match items.mapM (item? uw) with
+      | some its => showCompile (compileItems uw its)
+      | none => "bad-case"
+    | none => "bad-case"
   | ["m", t, u, spec] =>
     match unesc t, parseUw u, (spec.splitOn ",").mapM traitInfo? with
     | some s, some uw, some ts => handleMatch uw s ts
